@@ -123,6 +123,17 @@ class Table(Term):
         return f"TABLE {self.name}[{ast.unparse(self.key) if isinstance(self.key, ast.AST) else self.key}]"
 
 
+class Elem(Term):
+    """One element of a local list of model variables (for v in L)."""
+    kind = "elem"
+
+    def __init__(self, name: str, family: "Lin", node=None):
+        self.name, self.family, self.node = name, family, node
+
+    def text(self):
+        return f"ELEM[{self.name} = {self.family.text()}]"
+
+
 class Atom(Term):
     kind = "atom"
 
@@ -443,9 +454,34 @@ class Linearizer:
             r = self._var_from_binding(name, tgt, it)
             if r is not None:
                 return r
+            r = self._elem_of_list(name, tgt, it, at)
+            if r is not None:
+                return r
+        return None
+
+    def _elem_of_list(self, name, tgt, it, at) -> Optional[Lin]:
+        """for v in L / for i, v in enumerate(L) where L is a local list of model variables."""
+        lst = None
+        if isinstance(it, ast.Call) and call_name(it) == "enumerate" and it.args and isinstance(tgt, ast.Tuple) \
+                and len(tgt.elts) == 2 and isinstance(tgt.elts[1], ast.Name) and tgt.elts[1].id == name:
+            lst = it.args[0]
+        elif isinstance(tgt, ast.Name) and tgt.id == name:
+            lst = it
+        if isinstance(lst, ast.Name) and lst.id not in self._stack:
+            total = self.list_name(lst, it, lst)
+            if total.terms and all(t.kind in ("sum", "var") for _, t in total.terms):
+                return Lin.of(Elem(lst.id, total, tgt))
         return None
 
     def _var_from_binding(self, name, tgt, it) -> Optional[Lin]:
+        if isinstance(it, ast.Call) and call_name(it) in ("sorted", "natsorted", "list", "reversed") and it.args:
+            it = it.args[0]
+        # scatter table:  for k, expr in T.items()
+        if isinstance(it, ast.Call) and isinstance(it.func, ast.Attribute) and it.func.attr == "items" \
+                and isinstance(it.func.value, ast.Name) and it.func.value.id in self.tables \
+                and isinstance(tgt, ast.Tuple) and len(tgt.elts) == 2 and isinstance(tgt.elts[1], ast.Name) \
+                and tgt.elts[1].id == name:
+            return Lin.of(Table(it.func.value.id, tgt.elts[0], tgt))
         # F.items()  ->  (key, value)
         if isinstance(it, ast.Call) and isinstance(it.func, ast.Attribute) and it.func.attr in ("items", "values"):
             base = it.func.value
@@ -455,6 +491,13 @@ class Linearizer:
                 keys0.append(b.slice)
                 b = b.value
             keys0.reverse()
+            if isinstance(b, ast.Name) and not self.fams.is_container(b.id):
+                outer = self.binder_var(b.id, it)
+                if outer is not None and len(outer.terms) == 1 and outer.terms[0][1].kind == "var":
+                    ot = outer.terms[0][1]
+                    if ot.comp is None:
+                        keys0 = list(ot.keys) + keys0
+                        b = ast.Name(id=ot.fam, ctx=ast.Load())
             if isinstance(b, ast.Name) and self.fams.is_container(b.id):
                 if it.func.attr == "items" and isinstance(tgt, ast.Tuple) and len(tgt.elts) == 2:
                     k, v = tgt.elts
@@ -470,11 +513,13 @@ class Linearizer:
 
     def name(self, e: ast.Name, at, as_var_only=False) -> Optional[Lin]:
         nm = e.id
-        if self.fams.is_scalar(nm):
-            return Lin.of(Var(nm, [], None, e))
         bv = self.binder_var(nm, at)
         if bv is not None:
             return bv
+        if self._comp_bound(nm, at):
+            return None if as_var_only else self.coef_atom(e)
+        if self.fams.is_scalar(nm) and self._reaches_only_addvar(nm, at):
+            return Lin.of(Var(nm, [], None, e))
         if as_var_only:
             # value aliases:  v = VNEW[a][m]
             d = self._unique_def(nm, at)
@@ -488,7 +533,16 @@ class Linearizer:
             node_id = self.cfg.node_of(at)
         except AnalysisError:
             return self.coef_atom(e)
-        dnodes = sorted(IN[node_id])
+        dset = set(IN[node_id])
+        work = list(dset)
+        while work:  # an augmented assignment also depends on the definitions reaching it
+            d = work.pop()
+            if isinstance(defs[d], ast.AugAssign):
+                for d2 in IN[d]:
+                    if d2 not in dset:
+                        dset.add(d2)
+                        work.append(d2)
+        dnodes = sorted(dset)
         ds = [(d, defs[d]) for d in dnodes]
         if not ds:
             return self.coef_atom(e)
@@ -509,6 +563,32 @@ class Linearizer:
             return self.coef_atom(e)
         finally:
             self._stack.pop()
+
+    @staticmethod
+    def _comp_bound(nm, at) -> bool:
+        p = getattr(at, "_parent", None)
+        while p is not None and not isinstance(p, ast.stmt):
+            if isinstance(p, (ast.GeneratorExp, ast.ListComp, ast.SetComp, ast.DictComp)):
+                for g in p.generators:
+                    if any(isinstance(x, ast.Name) and x.id == nm for x in ast.walk(g.target)):
+                        return True
+            p = getattr(p, "_parent", None)
+        return False
+
+    def _reaches_only_addvar(self, nm, at) -> bool:
+        IN, defs = reaching(self.cfg, nm)
+        try:
+            ds = [defs[d] for d in IN[self.cfg.node_of(at)]]
+        except AnalysisError:
+            return True
+        if not ds:
+            return True
+        for d in ds:
+            v = d.value if isinstance(d, (ast.Assign, ast.AnnAssign)) else None
+            if not (isinstance(v, ast.Call) and (call_name(v).endswith("addVar") or
+                                                  (isinstance(v.func, ast.Name) and v.func.id in self.fams.lambdas))):
+                return False
+        return True
 
     def _unique_def(self, nm, at):
         IN, defs = reaching(self.cfg, nm)
@@ -540,6 +620,8 @@ class Linearizer:
         i0, d0 = inits[-1]
         v0 = self._assigned_value(d0, nm)
         total = self.lin(v0, d0) if v0 is not None else Lin()
+        if total.is_const() and all(self.lin(d.value, d).is_const() for _, d in augs):
+            return Lin.const(Coef(1, (nm,)))  # a running counter / pure number: coefficient atom
         base_facts = {(id(t), p) for t, p in self.cfg.guards(i0)}
         for i, d in augs:
             if not isinstance(d.op, (ast.Add, ast.Sub)):
@@ -613,7 +695,16 @@ class Linearizer:
         if nm in self._stack:
             return Lin.of(Atom(f"sum({nm})", a, "opaque-sum"))
         IN, defs = reaching(self.cfg, nm)
-        ds = [(d, defs[d]) for d in sorted(IN[self.cfg.node_of(at)])]
+        dset = set(IN[self.cfg.node_of(at)])
+        work = list(dset)
+        while work:
+            d = work.pop()
+            if isinstance(defs[d], ast.AugAssign):
+                for d2 in IN[d]:
+                    if d2 not in dset:
+                        dset.add(d2)
+                        work.append(d2)
+        ds = [(d, defs[d]) for d in sorted(dset)]
         self._stack.append(nm)
         try:
             total = Lin()
